@@ -19,7 +19,7 @@ RULE = (
     "R,H in 0..3 (quick) / 0..4 (thorough), pushed through the implementation as one ragged "
     "batch per (R,H) and again in reversed batch order and (thorough: also one pair at a time); "
     "x cost triples x eos in {None,2} x include_eos x norm x batch_first x "
-    "{edit_distance, prefix_edit_distances(exclude_last both, two padding values)} x "
+    "{edit_distance, prefix_edit_distances(exclude_last both, three padding values, one of which (2) collides with legitimate distances)} x "
     "{functional, module}. Cases are distinct by construction (cartesian product of "
     "duplicate-free generators); a case is non-trivial when ref and hyp (as counted) differ "
     "and are both non-empty. Plus deliberately larger instances (R,H,N) = (127,120,100) and (255,250,17) "
@@ -34,6 +34,7 @@ ASSUMPTIONS = [
 ]
 BUDGET_S = {"quick": 900, "thorough": 3000}
 PAD2 = -7
+PAD3 = 2
 
 
 LARGE = [(127, 120, 100), (255, 250, 17)]  # (R, H, N): long sequences x many pairs, beyond the small scope
@@ -172,8 +173,9 @@ def _check_batch(ctx, pairs, ref, hyp, eos, include_eos, cost, tier, tag, module
                 else:
                     ctx.outcome(round(exp * 64))
         # ---- per-prefix distances ----------------------------------------------
-        for exclude_last, padding in itertools.product((False, True), (config.INDEX_PAD_VALUE, PAD2)):
-            if padding == PAD2 and tier == "quick" and not exclude_last:
+        # PAD3 collides with legitimate distances (2.0): a result must never be told from padding by its value
+        for exclude_last, padding in itertools.product((False, True), (config.INDEX_PAD_VALUE, PAD2, PAD3)):
+            if tier == "quick" and ((padding == PAD2 and not exclude_last) or (padding == PAD3 and exclude_last)):
                 continue
             if exclude_last and H == 0:
                 continue  # no prefix exists, zero-row output; outside the statement
